@@ -162,8 +162,8 @@ def run_herd(ctx, c):
     kd = herd.kcals_dict()
     try:
         animals, fu, gu, log = herd.run_main(c["code"], feed, grass, c["strategy"], c.get("heads"), kd, log=True)
-    except AssertionError:
-        if c.get("heads"):          # the herd model may refuse an overridden stock row (e.g. dairy transfers larger than the meat herd)
+    except (AssertionError, ValueError):
+        if c.get("heads"):          # the herd model may refuse an overridden stock row (dairy transfers larger than the meat herd; no animal left at all)
             ctx.abort("herd-model-refuses-overridden-heads")
             return
         raise
